@@ -21,6 +21,8 @@ func init() {
 			"handlers made to panic with short lines such as bare PING, '433 x', 'CAP x', 'PRIVMSG'-less CTCP) with values {string, error, custom struct, runtime error, panic(nil)}, under the default recovery (LogPanic) " +
 			"and a custom one, with 0..8 background handlers that park forever on every event. Judged at markers: the recovery function ran exactly once per thrown panic with that value and an equal line " +
 			"(default: an error record reached the logger), every well-behaved handler's count equals the number of events sent, later markers are reached (dead-state proof otherwise), the process is alive. " +
+			"Hostile mode: 150..300 probes per session shaped after what the built-in and state-tracking handlers expect (CAP, 353, 352, MODE, 324/332/311/671, membership verbs, registration numerics, CTCP) with hostile tokens, user handlers that query capabilities and the tracker on those verbs, tracking on/off; " +
+			"whenever the recovery function reports a built-in handler's panic, every later numbered event must still reach the user handlers (dead-state proof otherwise). " +
 			"distinct_nontrivial = distinct (victim kind, panic value kind, recovery kind, parked>0, GOMAXPROCS) cells in which a panic was actually thrown and recovered.",
 		Assumptions: []string{"for panic(nil) the recovered value depends on GODEBUG panicnil; only continued delivery is judged for it", "parked background handlers are released at the end of each session"},
 		Plan: func(tier string, seed int64) []Batch {
@@ -28,9 +30,15 @@ func init() {
 			for _, p := range []int{1, 4, 16} {
 				bs = append(bs, Batch{Name: fmt.Sprintf("p%d", p), Args: map[string]string{"procs": fmt.Sprint(p)}, Race: true, Procs: p, Weight: min(p, 4)})
 			}
+			for _, t := range []string{"0", "1"} {
+				bs = append(bs, Batch{Name: "hostile-t" + t, Args: map[string]string{"mode": "hostile", "tracking": t, "procs": "4"}, Race: true, Procs: 4, Weight: 2})
+			}
 			if tier == "thorough" {
 				for i := 0; i < 6; i++ {
 					bs = append(bs, Batch{Name: fmt.Sprintf("x%d", i), Args: map[string]string{"procs": "8", "salt": fmt.Sprint(i), "heavy": "1"}, Race: i < 2, Procs: 8, Weight: 3})
+				}
+				for i := 0; i < 4; i++ {
+					bs = append(bs, Batch{Name: fmt.Sprintf("hostile-x%d", i), Args: map[string]string{"mode": "hostile", "tracking": fmt.Sprint(i % 2), "procs": "8", "salt": fmt.Sprint(i), "heavy": "1"}, Race: false, Procs: 8, Weight: 2})
 				}
 			}
 			return bs
@@ -58,7 +66,139 @@ type c16Rec struct {
 	line *client.Line
 }
 
+// runC16Hostile: built-in (and state tracking) handlers made to panic by hostile input rather than by short lines. Which
+// probes make a built-in handler panic is not known beforehand - the recovery function tells. Judged: once a built-in
+// handler has panicked in a session, every later event still reaches every well-behaved user handler (a panic that
+// leaves something of the library locked shows up as a later event that is never delivered).
+func runC16Hostile(c *Ctx) {
+	sessions := c.Pick(40, 300)
+	if c.Arg("heavy", "") == "1" {
+		sessions = 1500
+	}
+	tracking := c.Arg("tracking", "0") == "1"
+	salt := c.Arg("salt", "")
+	logger := rig.NewCapLogger(nil)
+	logger.Discard = func(r *rig.LogRecord) bool { return true }
+	for idx := 0; idx < sessions; idx++ {
+		if !c.Want("hostile", idx) {
+			continue
+		}
+		r := rig.Rand(c.Seed, "C16hostile", tracking, salt, idx)
+		nProbes := 150 + r.Intn(150)
+		c.J.Log("CASE %s tracking=%v probes=%d", Case("hostile", idx), tracking, nProbes)
+		var mu sync.Mutex
+		var panicked []string // raw form of the lines whose handler panicked
+		s := NewSession(SessionOpts{Flood: true, Tracking: tracking, Mutate: func(cfg *client.Config) {
+			cfg.Recover = func(_ *client.Conn, l *client.Line) {
+				if v := recover(); v != nil {
+					mu.Lock()
+					panicked = append(panicked, l.Raw)
+					mu.Unlock()
+				}
+			}
+		}})
+		var fg, bg int64
+		s.Conn.HandleFunc("EVT", func(_ *client.Conn, l *client.Line) { atomic.AddInt64(&fg, 1) })
+		s.Conn.HandleBG("EVT", client.HandlerFunc(func(_ *client.Conn, l *client.Line) { atomic.AddInt64(&bg, 1) }))
+		// user handlers that query the client the way applications do, on the verbs the probes use
+		for _, v := range []string{"CAP", "353", "352", "MODE", "JOIN", "PART", "KICK", "QUIT", "NICK", "PRIVMSG", "NOTICE"} {
+			s.Conn.HandleFunc(v, func(cc *client.Conn, l *client.Line) {
+				cc.SupportsCapability("sasl")
+				cc.HasCapability("multi-prefix")
+				if st := cc.StateTracker(); st != nil {
+					st.IsOn("#c", l.Nick)
+					if len(l.Args) > 0 {
+						st.GetNick(l.Args[len(l.Args)-1])
+						st.GetChannel(l.Args[0])
+					}
+				}
+			})
+		}
+		mc, err := s.Connect()
+		if err != nil {
+			c.R.Inconcl("connect: " + err.Error())
+			return
+		}
+		mc.SendLine(":srv 001 me :Welcome me!ident@host")
+		if tracking {
+			mc.SendLine(":me!ident@host JOIN #c")
+			mc.SendLine(":srv 353 me = #c :@me +ghost other")
+		}
+		ok := true
+		sent := int64(0)
+		for n := 0; n < nProbes && ok; n++ {
+			p := c02BuiltinProbe(r)
+			if strings.Contains(p.raw, "ERROR") {
+				continue
+			}
+			mc.SendLine(p.raw)
+			mc.SendLine(fmt.Sprintf(":srv EVT %d", n))
+			sent++
+			if n%10 == 9 || n == nProbes-1 {
+				if tracking {
+					// get back onto the channel in case a probe removed the client
+					mc.SendLine(":" + "me" + "!ident@h JOIN #c")
+				}
+				reached := s.FgMarker(mc) && waitUntil(func() bool { return atomic.LoadInt64(&bg) >= sent })
+				mu.Lock()
+				np := len(panicked)
+				var lastP string
+				if np > 0 {
+					lastP = panicked[np-1]
+				}
+				mu.Unlock()
+				if !reached {
+					ds := rig.ProveDead(WaitShort)
+					switch {
+					case ds.Dead && np > 0:
+						c.R.Violate(rig.Violation{Sig: "c16|delivery-stopped-after-builtin-panic|" + ds.Signature,
+							Detail:  fmt.Sprintf("after %d recovered panics of built-in handlers (last for %q) later events are never delivered (tracking=%v): dead state %s", np, lastP, tracking, ds.Signature),
+							Case:    Case("hostile", idx),
+							Witness: map[string]interface{}{"panicked_lines": panicked, "dump": ds.Dump}})
+					case ds.Dead:
+						c.R.Note(fmt.Sprintf("%s: delivery stopped without any recovered panic (input handling, property C02): %s", Case("hostile", idx), ds.Signature))
+					default:
+						c.R.Inconcl(fmt.Sprintf("%s: marker not reached (%s)", Case("hostile", idx), ds.Reason))
+					}
+					ok = false
+					break
+				}
+				if f := atomic.LoadInt64(&fg); f != sent {
+					c.R.Violate(rig.Violation{Sig: "c16|events-lost-around-builtin-panic", Detail: fmt.Sprintf("%d events sent, the foreground handler ran %d times (%d built-in panics so far, tracking=%v)", sent, f, np, tracking), Case: Case("hostile", idx)})
+					ok = false
+				}
+			}
+		}
+		mu.Lock()
+		np := len(panicked)
+		if np > 0 && c.R.WantSample() {
+			c.R.Sample(map[string]interface{}{"hostile_session": idx, "tracking": tracking, "built-in panics recovered": np, "first": panicked[0]})
+		}
+		mu.Unlock()
+		if ok {
+			c.R.Eval(1)
+			c.R.Count("hostile_probes", sent)
+			c.R.Count("builtin_panics_recovered_hostile", int64(np))
+			if np > 0 {
+				c.R.Class(fmt.Sprintf("hostile-builtin|runtime|custom|tracking=%v", tracking))
+			}
+		}
+		go s.Conn.Close()
+		s.Release()
+		if !ok && c.R.NumViolations() > 5 {
+			return
+		}
+		if !ok && len(c.R.Inconclusive) > 0 {
+			return
+		}
+	}
+}
+
 func runC16(c *Ctx) {
+	if c.Arg("mode", "") == "hostile" {
+		runC16Hostile(c)
+		return
+	}
 	sessions := c.Pick(60, 500)
 	if c.Arg("heavy", "") == "1" {
 		sessions = 1300
